@@ -139,8 +139,9 @@ CHECKS['C04'] = (
     'Proof (on the model): rowLine_tokens / writeMatrix_row_tokens (no cell dropped, glued or changed), convExp_only_marker, gate_rejects, gateless_formats, '
     'restricted_gates, pipelines_preserve (each of the 29 extracted normalisation pipelines uses only operations proved set-/span-preserving in C02/C07), '
     'optimize_only_veloxchem. Tie: write_matrix model = printing.write_matrix on sampled shell/ECP matrices, gate model = real gate on all 29x64 cases. '
-    'The 29 printing loops themselves are not modelled one by one: their output is checked token by token against the exact decimal values of the basis '
-    'on every explored (basis, format) — partial, stated as such.',
+    'One printing loop is modelled whole, at token level: NWChem (nwchem_writer_covers_shells: for every primitive a row with its exponent and every coefficient; '
+    'nwchem_writer_covers_ecp: the nelec line and every ECP term), its token lines compared with writers/nwchem.py line for line (C03 harness). The other 28 printing loops are not '
+    'modelled one by one: their output is checked token by token against the exact decimal values of the basis on every explored (basis, format) — partial, stated as such.',
     BASE_NOTE + 'the tokeniser/coverage oracle of the harness; rounding allowed for acesii and crystal at the printed width.', '6/C04')
 
 CHECKS['C03'] = (
